@@ -695,7 +695,7 @@ func (c *stateCtx) bigTx(target int, nonce, vub uint32) *transaction.Transaction
 	}
 	or := transaction.ConditionOr(conds)
 	var rules []transaction.WitnessRule
-	for i := 0; i < 10; i++ {
+	for i := 0; i < 16; i++ {
 		rules = append(rules, transaction.WitnessRule{Action: transaction.WitnessAllow, Condition: &or})
 	}
 	build := func(scriptLen int) *transaction.Transaction {
